@@ -3,6 +3,7 @@ import XeofsModel.Generated.Facts
 import Mathlib.Data.List.ProdSigma
 import Mathlib.Data.List.Nodup
 import Mathlib.Data.List.Perm.Basic
+import XeofsModel.Generated.Formulas
 /-!
 # C02 — outputs keep the input's structure and attach every value to its own label
 
@@ -70,5 +71,14 @@ theorem src_renamer_names_sample_dims_first :
 example : readBack [["t0"], ["t1"]] [["a"], ["b"]]
     ({ rows := [["t0"], ["t1"]], cols := [["a"], ["b"]], val := fun s f => s ++ f } : Frame Key).toMat [] ["t1"] ["a"] = ["t1", "a"] := by
   decide
+
+/-- source obligation: the latitude weight is `sqrt(clip(cos φ, 0, 1))`, with nothing snapped to zero — weighting and un-weighting
+are inverse to each other at every latitude whose cosine is representable as a positive number -/
+theorem src_coslat_formula : Gen.coslatWeightIsSqrtOfClippedCos = true := by decide
+
+/-- source obligations: the sample coordinates remembered at fit time and those of later transforms are kept apart, and the way
+back for fitted results reads the fit-time record — a later `transform` cannot re-label `scores()` -/
+theorem src_fit_labels_kept_apart :
+    Gen.multiIndexDictsSeparate = true ∧ Gen.multiIndexInverseReadsChosenReference = true := by decide
 
 end C02
